@@ -26,9 +26,13 @@ C++ typing assumed by the renderer
     values.  Values of that type are `Nat` in Lean; every value that enters (the
     `size` argument, header sizes, `size_bytes(d)`) is supplied by the hand-modelled
     environment already reduced to its `std::size_t` value.
-  * `*header.blockLength()` has an unsigned integer type of at most 64 bits, so
-    passing it to a `std::size_t` parameter preserves the value (no conversion is
-    rendered).
+  * `*header.blockLength()` and `d.size()` (`size_type` of a `<data>` view) have an
+    unsigned integer type of at most 64 bits, so passing them to a `std::size_t`
+    parameter preserves the value (no conversion is rendered).
+  * `sizeof(typename T::member)` where `T` is the template type parameter that is
+    the declared type of exactly one (named) parameter `p` is a constant of `p`'s
+    type: it is rendered as a pure field of the view bound to `p` (table
+    `EXTERNAL_SIZEOF`); every other `sizeof` is an extraction failure.
   * a parameter whose type is a template type parameter is a view (`View`) when it
     is the first parameter, the cursor (`Cursor`) when it is declared as an lvalue
     reference, a tag (`Tag`) otherwise: this is the calling convention of
@@ -77,6 +81,12 @@ EXTERNAL_FREE = {
 # member functions of foreign objects: (object type, name, argument types) -> (DSL, result type)
 EXTERNAL_MEMBER = {
     ('Header', 'blockLength', ()): ('Header.blockLength', 'Num'),
+    ('View', 'size', ()): ('View.size', 'Nat'),
+}
+# `sizeof(typename T::member)` for a parameter of template type `T`: (parameter type, member) -> (DSL, result type);
+# a constant of the parameter's type, no action
+EXTERNAL_SIZEOF = {
+    ('View', 'size_type'): ('View.sizeofSizeType', 'Nat'),
 }
 
 # words that may precede a declarator and carry no meaning for the model
@@ -196,7 +206,7 @@ class BodyParser(Cursor):
       ('num', n) ('bool', b) ('nullptr',) ('this',) ('name', 'a::b')
       ('call', fn-expr, [args]) ('member', obj, name) ('index', obj, i)
       ('un', op, e) ('post', op, e) ('bin', op, l, r) ('assign', op, l, r) ('cond', c, a, b)
-      ('scast', type, e) ('brace', typename|None, [args])
+      ('scast', type, e) ('brace', typename|None, [args]) ('sizeof_type', 'T::member')
     Statements:
       ('decl', type-spelling, name, init-expr|None, line) ('expr', e, line) ('if', c, [then], [else]|None, line)
       ('return', e|None, line) ('assert', e, line) ('sizecheck', [e], line)"""
@@ -317,7 +327,20 @@ class BodyParser(Cursor):
                 e = self.expr()
                 self.expect(')')
                 return ('scast', ty, e)
-            if v in ('reinterpret_cast', 'const_cast', 'dynamic_cast', 'sizeof', 'new', 'delete', 'throw', 'operator'):
+            if v == 'sizeof':
+                # only `sizeof(type-id)` with a (dependent) qualified type name: `sizeof(typename T::size_type)`
+                if not self.at('('):
+                    raise ExtractError('`sizeof` without parentheses')
+                inner = self.skip_balanced('(', ')')
+                had_typename = bool(inner) and inner[0][:2] == ('id', 'typename')
+                if had_typename:
+                    inner = inner[1:]
+                ok = bool(inner) and len(inner) % 2 == 1 and all(
+                    (t[0] == 'id' if i % 2 == 0 else t[1] == '::') for i, t in enumerate(inner))
+                if not ok or len(inner) < 3 or not had_typename:
+                    raise ExtractError('unsupported `sizeof(%s)`: only `sizeof(typename T::member)` is' % spell(inner))
+                return ('sizeof_type', spell(inner))
+            if v in ('reinterpret_cast', 'const_cast', 'dynamic_cast', 'new', 'delete', 'throw', 'operator'):
                 raise ExtractError('unsupported expression `%s`' % v)
             self.i -= 1
             return ('name', self.qualified())
@@ -676,6 +699,7 @@ class Renderer:
         self.used = set()
         self.ret_type = None
         self.in_member = True
+        self.param_of_type = {}           # template type parameter -> [(Lean identifier|None, Lean type)] of the parameters declared with it
 
     # ---- output
     def emit(self, s):
@@ -830,6 +854,19 @@ class Renderer:
             if lty == 'Bool' and rty == 'Bool' and op in ('==', '!='):
                 return '(%s %s %s)' % (lt, op, rt), 'Bool'
             raise ExtractError('operator %s on %s and %s' % (op, lty, rty))
+        if k == 'sizeof_type':
+            parts = e[1].split('::')
+            if len(parts) != 2 or parts[0] not in self.tparams:
+                raise ExtractError('sizeof(typename %s): not a member type of a template type parameter' % e[1])
+            ps = self.param_of_type.get(parts[0], [])
+            if len(ps) != 1 or ps[0][0] is None:
+                raise ExtractError('sizeof(typename %s): %s is not the type of exactly one named parameter' % (e[1], parts[0]))
+            ident, pty = ps[0]
+            key = (pty, parts[1])
+            if key not in EXTERNAL_SIZEOF:
+                raise ExtractError('sizeof(typename %s) on a %s is not part of the visitor interface' % (e[1], pty))
+            dsl, rty = EXTERNAL_SIZEOF[key]
+            return '(%s %s)' % (dsl, ident), rty
         if k == 'cond':
             raise ExtractError('conditional operator')
         if k == 'call':
@@ -1022,13 +1059,18 @@ def render_function(f, lean_name, rd, is_ctor=False, data_members=None):
     """-> Lean text of one `def`"""
     rd.lines, rd.ind, rd.locals, rd.ntmp, rd.used = [], 1, [{}], 0, set()
     rd.tparams = set(f.tparams)
+    rd.param_of_type = {}
     binders = []
     for i, (ty, ref, name) in enumerate(f.params):
         lty = rd.lean_type(ty, ref=ref, first=(i == 0))
         if name is None:
             binders.append('(_ : %s)' % lty)
+            ident = None
         else:
-            binders.append('(%s : %s)' % (rd.declare(name, lty), lty))
+            ident = rd.declare(name, lty)
+            binders.append('(%s : %s)' % (ident, lty))
+        if ty in rd.tparams:
+            rd.param_of_type.setdefault(ty, []).append((ident, lty))
     if is_ctor:
         rd.ret_type = 'Self'
         inits = dict()
@@ -1188,7 +1230,8 @@ def extract(repo, outdir):
     text = ('-- GENERATED by /verif/extract/methods_checked.py from %s on every check run. Do not edit.\n'
             '-- `sbepp::detail::%s` member by member and `sbepp::%s`, rendered in the visitor DSL of\n'
             '-- Sbepp/Rt/Checked.lean (`Sbepp.Checked.Visitor`).  C++ typing assumed: `std::size_t` = 64-bit unsigned\n'
-            '-- (`sizeSub`/`sizeAdd` wrap), `*header.blockLength()` converts to `std::size_t` without change of value,\n'
+            '-- (`sizeSub`/`sizeAdd` wrap), `*header.blockLength()` and `d.size()` convert to `std::size_t` without change of\n'
+            '-- value, `sizeof(typename T::size_type)` is a constant of the view whose type is `T`,\n'
             '-- template-typed parameters are view / cursor (lvalue reference) / tag by position, `*this`, `visitor` and\n'
             '-- the result of `visit_children` denote the visitor state, left-to-right evaluation.\n'
             'import Sbepp.Rt.Checked\n\nset_option linter.unusedVariables false\n\nnamespace Sbepp.Extracted.Checked\nopen Sbepp.Checked Sbepp.Checked.Visitor\n\n'
